@@ -57,30 +57,30 @@ theorem removeOption_look_ne (c : Ini) (sect : Str) (k : Name) (sect' : Str) (k'
         simp only [if_true, lookup_mapErase_ne _ _ _ hk, Ini.sect]
       · simp only [hs, if_false]
 
+/-- one turn of the write loop either leaves the configuration alone or assigns the option in the server's section -/
+theorem writeOpt_cases (T : Tables) (args : Chain) (libCfg : Map) (server : Str) (cfg cfg' : Ini) (ot : Name × CfgTy)
+    (h : writeOpt T args libCfg server cfg ot = .ok cfg') :
+    cfg' = cfg ∨ ∃ txt, cfg' = cfg.set server ot.1 txt := by
+  unfold writeOpt at h
+  split at h
+  · simp only [pure, Except.pure, Except.ok.injEq] at h; exact Or.inl h.symm
+  · simp only [bind, Except.bind] at h
+    split at h
+    · cases h
+    · split at h
+      · split at h
+        · cases h
+        · simp only [pure, Except.pure, Except.ok.injEq] at h
+          exact Or.inr ⟨_, h.symm⟩
+      · simp only [pure, Except.pure, Except.ok.injEq] at h; exact Or.inl h.symm
+
 /-- one turn of the write loop touches at most the option it is about -/
 theorem writeOpt_look_ne (T : Tables) (args : Chain) (libCfg : Map) (server : Str) (cfg cfg' : Ini) (ot : Name × CfgTy)
     (h : writeOpt T args libCfg server cfg ot = .ok cfg') (sect' : Str) (k' : Name) (hk : k' ≠ lower ot.1) :
     cfg'.look sect' k' = cfg.look sect' k' := by
-  unfold writeOpt at h
-  split at h
-  · simp only [pure, Except.pure, Except.ok.injEq] at h; rw [← h]
-  · simp only [bind, Except.bind] at h
-    split at h
-    · cases h
-    · rename_i act _
-      cases act with
-      | write =>
-        simp only at h
-        split at h
-        · cases h
-        · simp only [pure, Except.pure, Except.ok.injEq] at h
-          rw [← h, set_look_ne _ _ _ _ _ _ hk]
-      | drop =>
-        simp only [pure, Except.pure, Except.ok.injEq] at h
-        rw [← h, removeOption_look_ne _ _ _ _ _ hk]
-      | skip =>
-        simp only [pure, Except.pure, Except.ok.injEq] at h
-        rw [← h]
+  rcases writeOpt_cases T args libCfg server cfg cfg' ot h with rfl | ⟨txt, rfl⟩
+  · rfl
+  · exact set_look_ne _ _ _ _ _ _ hk
 
 theorem foldlM_preserves {α β : Type} (f : β → α → PyM β) (P : β → Prop) (l : List α)
     (hstep : ∀ b a b', a ∈ l → f b a = .ok b' → P b → P b') (b b' : β) (h : l.foldlM f b = .ok b') (hb : P b) : P b' := by
